@@ -65,6 +65,11 @@ def forPairs (f : Pair → M Value) : List Pair → M (List Value)
     let vs ← forPairs f kvs
     pure (v :: vs)
 
+/-- `for i := range chunk { ret[i], err = f(chunk[i], args, nil) }`: the row function runs with a
+    nil context, the caller's context is left as it is -/
+def rowWiseNoCtx (f : Pair → M Value) (chunk : List Pair) : M (List Value) :=
+  fun ctx => ((forPairs f chunk Ctx.none).1, ctx)
+
 def boolV (x : Except Err Bool) : Except Err Value := x.map Value.bool
 
 /-- one row of the ListExpr loop of `execInBatch`: `listValues[j][i]` for j = 0, 1, … -/
@@ -159,17 +164,11 @@ def betweenRows (number : Bool) : Nat → List Value → List Value → List Val
     pure (y :: ys)
   | _ + 1, _, _, _ => .error idxPanic
 
-/-- `execEqualBatch` after both operands are evaluated: empty chunk, type sniffing on `rleft[0]`, loop -/
+/-- `execEqualBatch` after both operands are evaluated: empty chunk, then the comparison of `execEqual`
+    pair by pair (the kind is chosen from each pair's left value) -/
 def equalBatchFinish (not : Bool) (n : Nat) (rleft rright : List Value) : Except Err (List Value) :=
   if n == 0 then .ok []                                        -- `return nil, nil`
-  else
-    match rleft.head? with
-    | none => .error (.panic "execEqualBatch: rleft[0]")
-    | some first =>
-      match eqKindOf first with
-      | none => .error .operandType
-      | some k =>
-        zipRows (fun x y => boolV ((equalBatchRow k x y).map (fun c => if not then !c else c))) n rleft rright
+  else zipRows (fun x y => boolV ((equalRow x y).map (fun c => if not then !c else c))) n rleft rright
 
 mutual
   /-- `Expression.ExecuteBatch(chunk, ctx)` -/
@@ -215,7 +214,7 @@ mutual
             | none => M.throw (.panic "function body not modelled")
             | some b =>
               if fo.vecIsTwin then vecBody b args chunk
-              else forPairs (rowBody b args) chunk      -- `BodyVec == nil`: the row body per pair
+              else rowWiseNoCtx (rowBody b args) chunk  -- `BodyVec == nil`: the row body per pair, nil context
     | .binop _ op l r, chunk =>
       let leftStr := retType l == tyTSTR
       let n := chunk.length
@@ -393,11 +392,12 @@ mutual
       let largs ← execBatch a0 chunk
       let rargs ← execBatch a1 chunk
       M.lift (zipRowsLazy (distanceRow l2Distance) chunk.length largs rargs)
-    -- the remaining vector bodies call the row body pair by pair
-    | .join, args, chunk => forPairs (rowBody .join args) chunk
-    | .floatList, args, chunk => forPairs (rowBody .floatList args) chunk
-    | .intList, args, chunk => forPairs (rowBody .intList args) chunk
-    | .toList, args, chunk => forPairs (rowBody .toList args) chunk
+    -- the remaining vector bodies call the row body pair by pair WITHOUT a context
+    -- (`funcJoin(chunk[i], args, nil)`): the chunk's context is neither read nor written
+    | .join, args, chunk => rowWiseNoCtx (rowBody .join args) chunk
+    | .floatList, args, chunk => rowWiseNoCtx (rowBody .floatList args) chunk
+    | .intList, args, chunk => rowWiseNoCtx (rowBody .intList args) chunk
+    | .toList, args, chunk => rowWiseNoCtx (rowBody .toList args) chunk
     | _, _, _ => M.throw (.panic "args[i]: index out of range")
 end
 
